@@ -131,6 +131,7 @@ func (p *Parser) Reset() {
 	p.ctx = nil
 	p.positions = nil
 	p.strict = false
+	p.dialect = ""
 }
 
 // currentLocation returns the source location of the current token.
@@ -282,6 +283,7 @@ type Parser struct {
 func (p *Parser) Parse(tokens []token.Token) (*ast.AST, error) {
 	p.tokens = tokens
 	p.currentPos = 0
+	p.positions = nil // no position mapping for this input: never report locations of an earlier one
 	if len(tokens) > 0 {
 		p.currentToken = tokens[0]
 	}
@@ -547,6 +549,7 @@ func (p *Parser) ParseContext(ctx context.Context, tokens []token.Token) (*ast.A
 
 	p.tokens = tokens
 	p.currentPos = 0
+	p.positions = nil // no position mapping for this input: never report locations of an earlier one
 	if len(tokens) > 0 {
 		p.currentToken = tokens[0]
 	}
@@ -608,6 +611,7 @@ func (p *Parser) Release() {
 	p.currentToken = token.Token{}
 	p.depth = 0
 	p.ctx = nil
+	p.positions = nil
 }
 
 // parseStatement parses a single SQL statement using O(1) Type-based dispatch.
